@@ -227,17 +227,25 @@ theorem verify_refines_spec (i : Input) : (run i).success = expected i := by
         have := loop_post i.max.toNat i.pages
         generalize hres : pages i.max.toNat i.pages 0 0 {} = res at this ⊢
         match res, this with
-        | (.error (.done j), log'), h => simp [norm] at h; simp [h.1]
-        | (.error (.fetchErr j), log'), h => simp [norm] at h; simp [h.1]
-        | (.error .exceeded, log'), h => simp [norm] at h; simp [h.1]
-        | (.ok n, log'), h => simp [norm] at h; simp [h.1]
+        | (.error (.done j), log'), h =>
+          simp [norm] at h
+          cases hle : i.listErr <;> simp [tail, listRet, errObs, h.1]
+        | (.error (.fetchErr j), log'), h =>
+          simp [norm] at h
+          cases hle : i.listErr <;> simp [tail, listRet, errObs, h.1]
+        | (.error .exceeded, log'), h =>
+          simp [norm] at h
+          cases hle : i.listErr <;> simp [tail, listRet, errObs, h.1]
+        | (.ok n, log'), h =>
+          simp [norm] at h
+          cases hle : i.listErr <;> simp [tail, listRet, errObs, h.1]
 
 /-- **C10, paging independence**: two pagings of the same listing give the same result. -/
 theorem paging_independent (i₁ i₂ : Input) (hm : i₁.max = i₂.max) (hr : i₁.ref = i₂.ref)
-    (hs : i₁.skip = i₂.skip) (hp : i₁.pages.flatten = i₂.pages.flatten) :
+    (hs : i₁.skip = i₂.skip) (hl : i₁.listErr = i₂.listErr) (hp : i₁.pages.flatten = i₂.pages.flatten) :
     (run i₁).success = (run i₂).success := by
   rw [verify_refines_spec, verify_refines_spec]
-  simp [expected, limit, hm, hr, hs, hp]
+  simp [expected, limit, hm, hr, hs, hl, hp]
 
 /-- **C10, the whole property**: every clause of `Holds` is true of the model's behaviour. -/
 theorem model_holds (i : Input) : Holds i (run i) = true := by
@@ -260,27 +268,28 @@ theorem model_holds (i : Input) : Holds i (run i) = true := by
         | (.error (.done j), log'), h =>
           simp [norm] at h
           obtain ⟨h1, h2, h3, h4, h5⟩ := h
-          simp [h3, h4, kindAt]
-          refine ⟨by omega, ?_⟩
-          exact (filter_range_all _ _ (fun k hk => h5 k (by omega))).symm
+          have hf := (filter_range_all i.pages.flatten (j+1) (fun k hk => h5 k (by omega))).symm
+          cases hle : i.listErr <;> simp [tail, listRet, errObs, h3, h4, kindAt] <;>
+            exact ⟨by omega, hf⟩
         | (.error (.fetchErr j), log'), h =>
           simp [norm] at h
           obtain ⟨h1, h2, h3, h4, h5, h6⟩ := h
-          simp [errObs, h3, h4, kindAt]
-          refine ⟨by omega, ?_⟩
-          rw [List.range_succ, List.filter_append]
-          simp [h6]
-          exact (filter_range_all _ _ h5).symm
+          have hf : List.range j = List.filter (fun k => i.pages.flatten[k]? != some Sig.unfetchable) (List.range (j + 1)) := by
+            rw [List.range_succ, List.filter_append]
+            simp [h6]
+            exact (filter_range_all _ _ h5).symm
+          cases hle : i.listErr <;> simp [tail, listRet, errObs, h3, h4, kindAt] <;>
+            exact ⟨by omega, hf⟩
         | (.error .exceeded, log'), h =>
           simp [norm] at h
           obtain ⟨h1, m, h2, h3, h4, h5⟩ := h
-          simp [errObs, h3, h4, kindAt]
-          exact ⟨h2, (filter_range_all _ _ h5).symm⟩
+          cases hle : i.listErr <;> simp [tail, listRet, errObs, h3, h4, kindAt] <;>
+            exact ⟨h2, (filter_range_all _ _ h5).symm⟩
         | (.ok n, log'), h =>
           simp [norm] at h
           obtain ⟨h1, m, h2, h3, h4, h5⟩ := h
-          simp [errObs, h3, h4, kindAt]
-          exact ⟨h2, (filter_range_all _ _ h5).symm⟩
+          cases hle : i.listErr <;> simp [tail, listRet, errObs, h3, h4, kindAt] <;>
+            exact ⟨h2, (filter_range_all _ _ h5).symm⟩
 
 /-- readable consequences of `model_holds` -/
 theorem skip_touches_nothing (i : Input) (hs : i.skip = true) (hm : 0 < i.max) :
@@ -298,34 +307,96 @@ theorem nothing_after_success (i : Input) (j : Nat) (h : (run i).success = some 
     (run i).fetched = List.range (j+1) ∧ (run i).descOk = true := by
   have := model_holds i
   simp [Holds, clauses, Clauses.holds, h] at this
-  obtain ⟨_, _, _, h4, _, _, _, h8, h9⟩ := this
+  obtain ⟨_, _, _, h4, _, _, _, _, h8, h9⟩ := this
   exact ⟨by rw [h4, h8], h9⟩
 
 theorem errors (i : Input)
-    (h : i.max ≤ 0 ∨ i.ref = .noRef ∨ i.ref = .digestMismatch ∨ i.pages.flatten = []) :
+    (h : i.max ≤ 0 ∨ i.ref = .noRef ∨ i.ref = .digestMismatch ∨ i.pages.flatten = [] ∨ i.listErr = .replace) :
     (run i).success = none := by
   rw [verify_refines_spec]
   unfold expected
-  rcases h with h | h | h | h
+  rcases h with h | h | h | h | h
   · simp [h]
   · simp [h, refOk]
   · simp [h, refOk]
   · simp [h, specFind]
+  · simp [h]
+
+/-- **C10, the repository's handling of the stop request.** A repository that swallows the error by which
+the callback stopped the listing (returns nil) is observed exactly like one that hands it back: the decision
+rests on what the callback recorded, not on the error that comes back. -/
+theorem swallowed_stop_changes_nothing (i : Input) :
+    run { i with listErr := .swallow } = run { i with listErr := .forward } := by
+  unfold run
+  by_cases hmax : i.max ≤ 0
+  · simp [hmax]
+  · by_cases hs : i.skip
+    · simp [hmax, hs]
+    · cases href : i.ref <;> simp [hmax, hs]
+      all_goals
+        generalize pages i.max.toNat i.pages 0 0 {} = res
+        match res with
+        | (.error (.done j), log') => simp [tail, listRet]
+        | (.error (.fetchErr j), log') => simp [tail, listRet]
+        | (.error .exceeded, log') => simp [tail, listRet]
+        | (.ok n, log') => simp [tail, listRet]
+
+/-- ... and what a repository does on a stop request can only matter when there is one: a listing that the
+callback never stops (nothing verified, limit not reached) is observed identically for all three. -/
+theorem no_stop_no_difference (i : Input) (m : ListErr) (n : Nat) (log : Log)
+    (h : pages i.max.toNat i.pages 0 0 {} = (.ok n, log)) :
+    run { i with listErr := m } = run i := by
+  unfold run
+  by_cases hmax : i.max ≤ 0
+  · simp [hmax]
+  · by_cases hs : i.skip
+    · simp [hmax, hs]
+    · cases href : i.ref <;> simp [hmax, hs, h, tail, listRet]
 
 /-- non-vacuity: a concrete run that succeeds on the second page within the limit -/
-example : run { max := 3, pages := [[.bad], [.good, .bad]], ref := .tag, skip := false, refVariant := "", flavors := [], sameAs := [] } =
+example : run { max := 3, pages := [[.bad], [.good, .bad]], ref := .tag, skip := false, listErr := .forward, refVariant := "", flavors := [], sameAs := [], wrap := 0, verifier := "skipper", policy := 0 } =
     { success := some 1, skipped := false, resolved := true, listed := true,
       fetched := [0, 1], verified := [0, 1], descOk := true } := by decide
 
-example : Holds { max := 3, pages := [[.bad], [.good, .bad]], ref := .tag, skip := false, refVariant := "", flavors := [], sameAs := [] }
+example : Holds { max := 3, pages := [[.bad], [.good, .bad]], ref := .tag, skip := false, listErr := .forward, refVariant := "", flavors := [], sameAs := [], wrap := 0, verifier := "skipper", policy := 0 }
     { success := some 0, skipped := false, resolved := true, listed := true,
       fetched := [0], verified := [0], descOk := true } = false := by decide
 
-/-- how the reference is spelled and which error values failing attempts return are not inputs of
-the decision: two inputs that differ only there are observed identically -/
-theorem concretisation_irrelevant (i : Input) (v : String) (f : List Nat) (sa : List Int) :
-    run { i with refVariant := v, flavors := f, sameAs := sa } = run i := by
+/-- the same listing behind a repository that swallows the stop request succeeds alike; behind one that reports
+the listing as failed it is an error, after the same two fetches -/
+example : run { max := 3, pages := [[.bad], [.good, .bad]], ref := .tag, skip := false, listErr := .swallow, refVariant := "", flavors := [], sameAs := [], wrap := 0, verifier := "stub", policy := 0 } =
+    { success := some 1, skipped := false, resolved := true, listed := true,
+      fetched := [0, 1], verified := [0, 1], descOk := true } := by decide
+
+example : run { max := 3, pages := [[.bad], [.good, .bad]], ref := .tag, skip := false, listErr := .replace, refVariant := "", flavors := [], sameAs := [], wrap := 1, verifier := "stub", policy := 0 } =
+    { success := none, skipped := false, resolved := true, listed := true,
+      fetched := [0, 1], verified := [0, 1], descOk := false } := by decide
+
+/-- a failure reported although a signature verified (what a repository adding context to the "done" sentinel
+gets from an identity comparison) is rejected by `Holds` -/
+example : Holds { max := 3, pages := [[.good]], ref := .tag, skip := false, listErr := .forward, refVariant := "", flavors := [], sameAs := [], wrap := 1, verifier := "stub", policy := 0 }
+    { success := none, skipped := false, resolved := true, listed := true,
+      fetched := [0], verified := [0], descOk := false } = false := by decide
+
+/-- a skip-level statement under which the repository was accessed all the same (what a verifier that no
+longer satisfies the optional skip interface gets) is rejected by `Holds` -/
+example : Holds { max := 3, pages := [], ref := .digestMatch, skip := true, listErr := .forward, refVariant := "", flavors := [], sameAs := [], wrap := 0, verifier := "realNew", policy := 1 }
+    { success := none, skipped := false, resolved := true, listed := true,
+      fetched := [], verified := [], descOk := false } = false := by decide
+
+/-- how the reference is spelled, which error values failing attempts return, which context a forwarding
+repository adds to the callback's error, which Verifier implementation decides and how its policy document is
+laid out are not inputs of the decision: two inputs that differ only there are observed identically -/
+theorem concretisation_irrelevant (i : Input) (v : String) (f : List Nat) (sa : List Int) (w : Nat)
+    (vk : String) (pol : Nat) :
+    run { i with refVariant := v, flavors := f, sameAs := sa, wrap := w, verifier := vk, policy := pol } = run i := by
   simp [run, errObs]
+
+/-- ... and the property asks the same of them -/
+theorem concretisation_irrelevant_spec (i : Input) (o : Obs) (v : String) (f : List Nat) (sa : List Int) (w : Nat)
+    (vk : String) (pol : Nat) :
+    Holds { i with refVariant := v, flavors := f, sameAs := sa, wrap := w, verifier := vk, policy := pol } o = Holds i o := by
+  rfl
 
 /-! ### tie to the translated source -/
 
@@ -565,6 +636,46 @@ theorem source_Verify_tail_refines_model (artifactRef : String) (art : ocispec.D
     · have : (some e == some errDoneVerification) = false := by simp [hd]
       by_cases hx : (some e == some errExc) = true <;> simp [this, hx, GoLite.idPure, hd]
 
+/-- how `Verify` classifies the error value it gets back from `ListSignatures` (`errors.Is`, "done" first) -/
+def retOf (errExc : GoLite.Err) : Option GoLite.Err → Ret
+  | none => .nil
+  | some e => if e = errDoneVerification then .done else if e = errExc then .exceeded else .other
+
+/-- TIE (translated source): the statements after the listing decide exactly like the model's `tail` on the
+classified error - whatever the repository made of the callback's error (handed back, swallowed = `none`,
+replaced = any other value) - given that the callback's flag `verificationSucceeded` says whether the loop stopped
+with "done" (which `source_Verify_callback_refines_model` / `PR.toRes` establish) and that something was processed then.
+(The translation reads `errors.Is` as equality of error values: context added around an error is not represented
+there; that side is covered by the correspondence run, input field `wrap`.) -/
+theorem source_Verify_tail_is_model_tail (artifactRef : String) (art : ocispec.Descriptor) (errExc : GoLite.Err) (err : Option GoLite.Err)
+    (num : Int) (succ : Bool) (outs : List (Option VerificationOutcome)) (errs : List (Option GoLite.Err))
+    (herrs : (GoLite.errJoin errs).isSome = true)
+    (r : Except Stop Nat) (log : Log)
+    (hs : succ = (match r with | .error (.done _) => true | _ => false))
+    (hn : succ = true → num ≠ 0) :
+    (verifyTail artifactRef art errExc err num succ outs errs).2.2.isNone =
+      (tail (retOf errExc err) r log).success.isSome := by
+  have h := (source_Verify_tail_refines_model artifactRef art errExc err num succ outs errs herrs).1
+  rw [h]
+  cases err with
+  | none =>
+    match r, hs with
+    | .error (.done j), hs => subst hs; have := hn rfl; simp [retOf, tail, this]
+    | .error (.fetchErr j), hs => subst hs; simp [retOf, tail, errObs]
+    | .error .exceeded, hs => subst hs; simp [retOf, tail, errObs]
+    | .ok n, hs => subst hs; simp [retOf, tail, errObs]
+  | some e =>
+    by_cases hd : e = errDoneVerification
+    · subst hd
+      match r, hs with
+      | .error (.done j), hs => subst hs; have := hn rfl; simp [retOf, tail, this]
+      | .error (.fetchErr j), hs => subst hs; simp [retOf, tail, errObs]
+      | .error .exceeded, hs => subst hs; simp [retOf, tail, errObs]
+      | .ok n, hs => subst hs; simp [retOf, tail, errObs]
+    · by_cases hx : e = errExc
+      · subst hx
+        simp [retOf, hd, tail, errObs]
+      · simp [retOf, hd, hx, tail, errObs]
 /-- non-vacuity: the translated callback on a page [bad, good] with limit 3 stops at the second
 signature with the done sentinel, two attempts counted -/
 example :
